@@ -339,7 +339,12 @@ def _post_xsec(args, kwargs, result):
         return [("nonfinite", repr(v.tolist()))]
     if abs(cext - (csca + cabs)) > 1e-11 * abs(cext):
         out.append(("energy", "cext=%r csca+cabs=%r" % (cext, csca + cabs)))
-    if cabs < -1e-10 * abs(cext):
+    # Lorenz-Mie: absorption is the difference of two sums over the same coefficients (rounding only).  The multi-sphere
+    # theory gets extinction from the optical theorem and scattering from a separate sum over the cluster expansion,
+    # each to the iterative solver's tolerance: a negative difference below that tolerance is not negative absorption.
+    th = _argmap(["scatterer", "medium_index", "illum_wavelen", "illum_polarization", "theory"], args, kwargs).get("theory")
+    floor = 1e-4 if type(th).__name__ == "Multisphere" else 1e-10
+    if cabs < -floor * abs(cext):
         out.append(("cabs_negative", repr(cabs)))
     if not csca > 0:
         out.append(("cscat_nonpositive", repr(csca)))
